@@ -103,7 +103,7 @@ TREES_QUICK += [
     ('added[orig2,rawstr1]', CCA(O('??'), RS('!'))),
     ('added[orig1,typed concat[rawstr1,orig1b],rawstr1] (flattened by add)', CCA(O('?'), CC(RS('!'), O('?', 'b.js')), RS('!'))),
     ('added[rawstr1,orig1];source;size;then a typed concat[orig1b,rawstr1] (mutation after observation)', CCA(RS('!'), O('?'), CC(O('?', 'b.js'), RS('!')), _1=['source', 'size', 'buffer'])),
-    ('added[orig2];hash;source;then rawstr1;source;then boxed concat', CCA(O('??'), RS('!'), BX(CC(RS('!'), O('a', 'c.js'))), _0=['hash', 'source'], _1=['source'])),
+    ('added[orig2];hash;source;then rawstr1;source;then a boxed leaf', CCA(O('??'), RS('!'), BX(O('a', 'c.js')), _0=['hash', 'source'], _1=['source'])),
 ]
 TREES_THOROUGH = [
     ('orig5', O('?????')),
